@@ -103,6 +103,7 @@ func c11Forms(sub gen.Sub, n int) []struct {
 
 func (j *c11Job) evalSub(c *run.Ctx, sub gen.Sub, n int, parsed map[string]impl.Func) {
 	for fi, f := range c11Forms(sub, n) {
+		c.Tick()
 		r := gen.Render(f.p, nil)
 		key := r.Text
 		fn, ok := parsed[key]
@@ -136,6 +137,18 @@ func (j *c11Job) evalSub(c *run.Ctx, sub gen.Sub, n int, parsed map[string]impl.
 			for _, v := range res.Values {
 				if x, isf := v.(float64); !isf || x < 0 || int(x) >= n {
 					ok2, kind, detail = false, "outside-array", fmt.Sprintf("selected %v outside [0,%d)", v, n)
+				}
+			}
+		}
+		if !ok2 {
+			// judge a fresh evaluation only (DESIGN §5): a parsed function reused across array
+			// lengths that answers differently from a fresh one is history dependence (C05)
+			if fp := impl.Parse(r.Text, &j.env.Cfg); fp.F != nil {
+				fres := impl.Call(fp.F, gen.Clone(f.doc))
+				if fok, _, _ := c01Judge(&out, fres); fok {
+					c.Add("history_dependence_seen", 1)
+					delete(parsed, key)
+					continue
 				}
 			}
 		}
